@@ -447,6 +447,7 @@ type CgfSnap struct {
 	Stale    []string `json:"stale"`    // files whose copy at the server differs from the CHF's current file
 	Missing  []string `json:"missing"`  // files written by the CHF that the server does not hold
 	Overlaps []string `json:"overlaps"` // commands sent on a control connection while another one awaited its reply
+	BadStors []string `json:"badStors"` // uploads whose content is not a well-formed CDR file
 	Stors    int      `json:"stors"`
 	Logins   int      `json:"logins"`
 }
@@ -525,6 +526,11 @@ func (w *World) snapshot(withGor bool) Snap {
 	s.DBGets, s.DBPuts = mongoapi.Gets, mongoapi.Puts
 	if srv := ftp.MemServers[cgfAddr]; srv != nil {
 		c := &CgfSnap{Overlaps: append([]string(nil), ftp.MemOverlaps...), Stors: len(srv.Stors), Logins: srv.Logins}
+		for i, b := range srv.StorData {
+			if _, err := refReadFile(b); err != nil {
+				c.BadStors = append(c.BadStors, fmt.Sprintf("upload %d (%s, %d octets): %v", i+1, srv.Stors[i], len(b), err))
+			}
+		}
 		var names []string
 		for n := range vos.Files {
 			names = append(names, n)
